@@ -162,6 +162,10 @@ func (fc *fctx) externalCall(callee *ssa.Function, args []*Val, cc *ssa.CallComm
 		params := tr.contracts.ExtSigs[key]
 		return fc.callContract(c, key, params, args, callee.Signature.Results(), pos)
 	}
+	tr.callArgs = nil
+	for _, a := range args {
+		tr.callArgs = append(tr.callArgs, tr.pointersIn(a, 0)...)
+	}
 	tr.warn("%s: external %s without contract: everything havocked", fnKey(fc.fn), key)
 	tr.trusted["unmodelled external "+key+" (havocs all memory, arbitrary results)"] = true
 	tr.havocAll()
